@@ -3,7 +3,7 @@
    exit status, stdout lines, a traceback indicator, the JSON document found in stdout, and per
    candidate builder version the vector in play and what the library API reports for it
    (drivers/cli.py).  The verdict fixes values, not layout.                                 *)
-EXTENDS CliOps, Json, IOUtils, TLC, TraceData
+EXTENDS CliOps, CmdLine, Json, IOUtils, TLC, TraceData
 T == TraceData
 VARIABLES i, ph
 Init == i \in 1..Len(T) /\ ph = 0
@@ -41,9 +41,11 @@ Matches(e, b) ==
               ELSE IF "j" \in FlagsOf(e.args, 1) /\ ~e.json_found THEN "json-missing"
               ELSE IF "j" \in FlagsOf(e.args, 1) /\ e.json_doc # L.json_sm THEN "json-differs-from-sorted-minimal"
               ELSE "ok"
+\* e.args is the normalised argument list, e.argv what was actually typed (CmdLine.tla relates the two)
 CliVerdict(e) ==
    LET fl == FlagsOf(e.args, 1) IN
    IF "?" \in fl THEN "ok"                                   \* not a command line of the property
+   ELSE IF Normalize(e.argv) # e.args THEN "harness-normalisation-disagrees-with-CmdLine"
    ELSE IF e.rc # 0 THEN "exit-status-" \o ToString(e.rc)
    ELSE IF e.traceback THEN "traceback"
    ELSE LET res == {Matches(e, b) : b \in Selected(fl)} IN
